@@ -154,7 +154,12 @@ def h_totals(ctx, skeleton, n, drivers, args=None, same_names=False):
                 continue
             for k, c in V.phys(v)[1].items():
                 if ctx.symbolic:
-                    ctx.holds(c >= 0, f"{name}.{attr} >= 0")
+                    if isinstance(c, Sym) and ctx.divisors:
+                        # sign is claimed where the value is defined (the zero-divisor case is obligation 5's subject)
+                        import z3
+                        ctx.holds(z3.Or(c.e >= 0, *[dz == 0 for dz in ctx.divisors]), f"{name}.{attr} >= 0")
+                    else:
+                        ctx.holds(c >= 0, f"{name}.{attr} >= 0")
                 else:
                     ctx.require(c >= -1e-12, f"{name}.{attr} >= 0", str(c))
     check_finite(ctx, objs, gt)
